@@ -160,6 +160,19 @@ class ExprCanon(ast.NodeTransformer):
             red = beta_reduce(node)
             if red is not node and not (isinstance(red, ast.Call) and isinstance(red.func, (ast.Lambda, ast.IfExp))):
                 return self.visit(red) if not isinstance(red, ast.Call) else red
+        # S.join(p for p in (a, b) if p)  ->  (a + S + b if b else a) if a else b      (join of the non-empty parts of two names)
+        if isinstance(f, ast.Attribute) and f.attr == 'join' and len(node.args) == 1 and not node.keywords \
+                and isinstance(f.value, (ast.Name, ast.Attribute, ast.Constant)) \
+                and isinstance(node.args[0], (ast.GeneratorExp, ast.ListComp)) and len(node.args[0].generators) == 1:
+            g = node.args[0].generators[0]
+            if isinstance(g.target, ast.Name) and isinstance(node.args[0].elt, ast.Name) and node.args[0].elt.id == g.target.id \
+                    and len(g.ifs) == 1 and isinstance(g.ifs[0], ast.Name) and g.ifs[0].id == g.target.id \
+                    and isinstance(g.iter, (ast.Tuple, ast.List)) and len(g.iter.elts) == 2 \
+                    and all(isinstance(e, (ast.Name, ast.Constant)) for e in g.iter.elts):
+                a, b = g.iter.elts
+                both = ast.BinOp(left=ast.BinOp(left=_load(a), op=ast.Add(), right=_load(f.value)), op=ast.Add(), right=_load(b))
+                inner = ast.IfExp(test=_load(b), body=both, orelse=_load(a))
+                return at(ast.IfExp(test=_load(a), body=inner, orelse=_load(b)), node)
         # filter(f, X) -> (_v for _v in X if f(_v));  filter(None, X) -> (_v for _v in X if _v)
         if isinstance(f, ast.Name) and f.id == 'filter' and len(node.args) == 2 and not node.keywords \
                 and not isinstance(node.args[1], ast.Starred) \
